@@ -3,7 +3,7 @@ CONSTANTS URLS = {"A","B","C","D"}
  Inc <- cInc
  Fetch <- cFetch
  Parse <- cParse
- MaxThr = 6
+ MaxThr = 9
  Prog <- cProg
  CacheInit <- cCache
  defaultInitValue = "dflt"
